@@ -41,8 +41,8 @@ def scope(tier):
 
 
 def shards(tier):
-    out = [dict(f="F1"), dict(f="F4"), dict(f="F5"), dict(f="F6"),
-           dict(f="F8")]
+    out = [dict(f="F0"), dict(f="F1"), dict(f="F4"), dict(f="F5"),
+           dict(f="F6"), dict(f="F8")]
     out += [dict(f="F2a", k=k) for k in range(16)]
     out += [dict(f="F2b", k=k) for k in range(16)]
     out += [dict(f="F3", k=k) for k in range(16)]
@@ -190,6 +190,30 @@ def chips_of(x0, y0, size):
 
 
 # ----------------------------------------------------------------- families
+def F0(tier, acc):
+    """Target sets that lie entirely inside the block at the origin (the
+    whole set fits a low level of the hierarchy)."""
+    for size in (4, 16, 64):
+        chips = chips_of(0, 0, size)
+        for cores in ([1], [1, 2], [0, 17]):
+            for minus in [None, (0, 0), (size - 1, size - 1), (1, 2)]:
+                rec = dict(blocks=[dict(x0=0, y0=0, size=size, cores=cores,
+                                        minus=[list(minus)] if minus
+                                        else [])])
+                run_recipe(rec, "F0 origin block %d" % size, acc)
+                rec = dict(blocks=[dict(x0=0, y0=0, size=size, cores=cores,
+                                        minus=[list(minus)] if minus
+                                        else [])],
+                           extra=[[size - 1, 0, [5]]], extra_first=True)
+                run_recipe(rec, "F0 origin block %d + core 5" % size, acc)
+    for n in (1, 2, 3):
+        for s_ in itertools.combinations(chips_of(0, 0, 2) +
+                                         [(3, 3), (15, 15), (63, 63)], n):
+            run_recipe(dict(extra=[[x, y, [1]] for x, y in s_]),
+                       "F0 sparse near origin", acc)
+    acc.sample(dict(family="F0"))
+
+
 def F1(tier, acc):
     x0, y0 = 4, 8
     chips = chips_of(x0, y0, 4)
